@@ -425,6 +425,8 @@ def _exec_train(plan, ctx):
                 bump("discarded_nonfinite")
                 return _result(world, evals, counters, kinds, violations, discarded=True)
         if crashed:
+            world.crash_plan = {}  # the armed crash belongs to the process that just died
+            world.disk.crash_at_write = None
             kinds.append("crash")
             outcome = world.disk.crash(make_rng((seg.get("crash") or {}).get("seed", seg["restart_key"])))
             fresh = zoo.build_model(cfg, jax.random.PRNGKey(seg["restart_key"]))
